@@ -193,13 +193,14 @@ class NFA:
         self.eps = []     # state -> list of targets
         self.bol = []     # state -> list of targets (only at position 0)
         self.eol = []     # state -> list of targets ($ assertion)
+        self.eos = []     # state -> list of targets (\Z assertion: absolute end of the string)
         self.trans = []   # state -> list of (frozenset(blocks), target)
         self.start = self.new()
         self.final = None
         self.group_spans = {}   # group id -> list of (entry, exit)
 
     def new(self):
-        self.eps.append([]); self.bol.append([]); self.eol.append([]); self.trans.append([])
+        self.eps.append([]); self.bol.append([]); self.eol.append([]); self.eos.append([]); self.trans.append([])
         return len(self.eps) - 1
 
     def build(self, nodes, s):
@@ -219,6 +220,8 @@ class NFA:
                 self.bol[s].append(t)
             elif av is sc.AT_END:
                 self.eol[s].append(t)
+            elif av is sc.AT_END_STRING:
+                self.eos[s].append(t)
             else:
                 raise Unsupported('AT %r' % (av,))
             return t
@@ -289,6 +292,8 @@ def determinize(nfa, relabel=None):
                 nxt += [(t, m) for t in nfa.bol[s]]
             for t in nfa.eol[s]:
                 nxt.append((t, 1 if m == 0 else m))
+            for t in nfa.eos[s]:
+                nxt.append((t, 2))
             if s == nfa.final:
                 nxt.append(({0: F0, 1: F1, 2: F2}[m], 0))
             for it in nxt:
